@@ -2524,6 +2524,10 @@ def monitor_sessions(res, sexe, rng, kinds):
         for cap, n in ((1, 2), (2, 3), (3, 4)):
             sess.append(('qsess cap=%d n=%d presize=1' % (cap, n), 'got=%s null=1' % ','.join(str(i + 1) for i in range(n)), n <= 3))
         sess.append(('qsess cap=10 n=14', 'got=%s null=1' % ','.join(str(i + 1) for i in range(14)), False))
+        # abort() from a third thread while the consumer sleeps on the empty queue / the producer on the full one and no end is declared:
+        # every waiter is released, the consumer gets a prefix of the objects and then null
+        for cap, n in ((1, 0), (1, 2), (2, 3), (1, 4)):
+            sess.append(('qsess cap=%d n=%d ctl=1' % (cap, n), 'prefix:%d' % n, n <= 3))
     if 'u' in kinds:
         for buf, conts, reads in [(1, [2, 2], [1, 2, 1, 1]), (4, [8, 8, 8], [20, 4, 1]), (4, [3, 5], [8, 1]), (8, [4, 4, 4, 4], [3, 13, 1]), (2, [1, 1, 1], [1, 1, 1, 1]),
                                   (4, [6], [2, 2, 2, 2]), (1, [5, 5], [10]), (16, [4, 4], [8, 8]), (3, [7, 2, 9], [4, 14, 5])]:
@@ -2535,6 +2539,9 @@ def monitor_sessions(res, sexe, rng, kinds):
                 if r > k:
                     break
             sess.append(('usess buf=%d conts=%s reads=%s' % (buf, ','.join(map(str, conts)), ','.join(map(str, reads))), 'reads=%s' % (','.join(exp) or '-'), sum(conts) <= 8))
+        # abort() from a third thread, no end declared: the session ends, what was read is a prefix of the stream
+        for buf, conts, reads in [(1, [2, 2], [1, 2, 1, 1]), (4, [3, 5], [8, 1]), (2, [1, 1, 1], [1, 1, 1, 1])]:
+            sess.append(('usess buf=%d conts=%s reads=%s ctl=1' % (buf, ','.join(map(str, conts)), ','.join(map(str, reads))), 'uprefix:%d' % sum(conts), sum(conts) <= 4))
     base = [b + ' policy=nonpreempt' for b, _, _ in sess]
     bans, rc, err = lib.psession(sexe, base, env=env, timeout=1800)
     if len(bans) != len(base):
@@ -2575,7 +2582,20 @@ def monitor_sessions(res, sexe, rng, kinds):
         n += 1
         res.corr['requests'] += 1
         exp = sess[i][1]
-        ok = 'outcome=done' in a and (' ' + exp + ' ') in (a + ' ')
+        if exp.startswith('uprefix:'):
+            rd = a.split(' reads=')[1].split()[0] if ' reads=' in a else '?'
+            try:
+                bs = b''.join(bytes.fromhex(x.rstrip('!')) for x in ([] if rd == '-' else rd.split(',')))
+                ok = 'outcome=done' in a and bs == bytes(k % 251 for k in range(len(bs))) and len(bs) <= int(exp[8:])
+            except ValueError:
+                ok = False
+        elif exp.startswith('prefix:'):
+            got = a.split(' got=')[1].split()[0] if ' got=' in a else '?'
+            want = [str(k + 1) for k in range(int(exp[7:]))]
+            gl = [] if got == '-' else got.split(',')
+            ok = 'outcome=done' in a and ' null=1' in a and gl == want[:len(gl)]
+        else:
+            ok = 'outcome=done' in a and (' ' + exp + ' ') in (a + ' ')
         if not ok:
             oc = a.split('outcome=')[1].split()[0] if 'outcome=' in a else 'none'
             sig = ('deadlock' if oc in ('deadlock', 'watchdog', 'steplimit') else 'wrong-result' if oc == 'done' else oc) + '-' + sess[i][0].split()[0]
